@@ -216,7 +216,7 @@ Definition panicking_by_contract (op : bytes) : bool :=
              "ar.opzadd"; "ar.opzsub"; "ar.opzaddasg"; "ar.opzsubasg"; "ar.opzdiff"; "ar.opzdays"; "ar.zaddstd";
              "t.opadd"; "t.opsub"; "t.opadd_assign"; "t.opsub_assign"; "t.opdiff";
              "t.addstd"; "t.substd"; "t.addstd_assign"; "t.substd_assign"; "t.addoff"; "t.suboff";
-             "ndt.opadd"; "ndt.opsub"; "d8.opaddm"; "d8.opsubm";
+             "ndt.opadd"; "ndt.opsub"; "ndt.addstd"; "ndt.substd"; "ndt.addstd_assign"; "ndt.substd_assign"; "d8.opaddm"; "d8.opsubm";
              "td.opaddasg"; "td.opsubasg"; "td.sumv"; "ar.opdasg"; "ar.opnasg"; "ar.stdasg"; "ar.zstdasg"; "ar.opzdiffref";
              "ar.opnoff"; "ar.opzoff"; "z.opmonths"; "d8.ndt.opaddm"; "d8.ndt.opsubm"]%string
   (* deprecated panicking constructors / accessors *)
